@@ -72,7 +72,7 @@ func pathExpr(p []string) string {
 
 func genCase(t *rapid.T) Case {
 	o := gen.YOpts{Depth: rapid.IntRange(2, 3).Draw(t, "depth"), Comments: true, Anchors: rapid.Bool().Draw(t, "anch"), Tags: rapid.IntRange(0, 3).Draw(t, "tags") == 0,
-		Flow: rapid.Bool().Draw(t, "flow"), Blocks: rapid.Bool().Draw(t, "blocks"), StrKeys: true}
+		Flow: rapid.Bool().Draw(t, "flow"), Blocks: rapid.Bool().Draw(t, "blocks"), StrKeys: true, LineOnFlow: rapid.Bool().Draw(t, "lineonflow")}
 	docs := gen.StyledStream(t, o, 1)
 	d := docs[0]
 	c := Case{Doc: d, Text: gen.Text(docs)}
@@ -108,6 +108,25 @@ func genCase(t *rapid.T) Case {
 		c.Update = `.["zz_copy"] = ` + pathExpr(x.path) + ` | .["zz_copy"]` + step + ` = 9999`
 		return c
 	}
+	if len(cands) >= 2 && rapid.IntRange(0, 11).Draw(t, "unionupd") == 0 {
+		// two updates joined by `,`: both work on the document in place, which is printed once (as `u1 | u2` prints it)
+		y := rapid.SampledFrom(cands).Draw(t, "target2")
+		mk := func(z tnode, label string) string {
+			pz := pathExpr(z.path)
+			switch rapid.IntRange(0, 2).Draw(t, label) {
+			case 0:
+				return "del(" + pz + ")"
+			case 1:
+				return "(" + pz + ` = "u")`
+			default:
+				return "(" + pz + ` style="")`
+			}
+		}
+		c.Kind = "union_updates"
+		c.Path = nil
+		c.Update = mk(x, "uk1") + ", " + mk(y, "uk2")
+		return c
+	}
 	c.Path = x.path
 	p := pathExpr(x.path)
 	val := rapid.SampledFrom([]string{`"new"`, `42`, `true`, `null`, `"multi word"`, `1.5`}).Draw(t, "val")
@@ -138,8 +157,13 @@ func genCase(t *rapid.T) Case {
 		if x.n.K == gen.YSeq {
 			n := x.n.Len()
 			c.Update = fmt.Sprintf("del(%s[%d])", p, n+rapid.IntRange(1, 4).Draw(t, "beyond"))
-			if rapid.Bool().Draw(t, "two") {
+			switch rapid.IntRange(0, 3).Draw(t, "dnform") {
+			case 0:
 				c.Update = fmt.Sprintf("del(%s[%d], %s[%d])", p, n+2, p, n+5)
+			case 1:
+				if p != "." {
+					c.Update = fmt.Sprintf("del(%s.%d)", p, n+rapid.IntRange(1, 4).Draw(t, "beyond2")) // dotted index
+				}
 			}
 		} else {
 			c.Update = "del(" + p + `.["zz_missing"])`
@@ -147,6 +171,9 @@ func genCase(t *rapid.T) Case {
 	case "read_missing":
 		// reading past the end on the right-hand side: the only change is the new key
 		c.Update = fmt.Sprintf(`.["zz_new"] = %s[%d]`, p, x.n.Len()+rapid.IntRange(1, 4).Draw(t, "beyond"))
+		if p != "." && rapid.Bool().Draw(t, "dotted") {
+			c.Update = fmt.Sprintf(`.["zz_new"] = %s.%d`, p, x.n.Len()+rapid.IntRange(1, 4).Draw(t, "beyond2"))
+		}
 		if d.Root.K != gen.YMap {
 			c.Kind = "delete_nothing"
 			c.Update = fmt.Sprintf("del(%s[%d])", p, x.n.Len()+2)
@@ -281,11 +308,12 @@ func commentsOf(text string) []string {
 				rec(v)
 				add(k.FootComment)
 			}
+			add(n.LineComment) // `{..} # c`: after the content
 		} else {
-			add(n.LineComment)
 			for _, ch := range n.Content {
 				rec(ch)
 			}
+			add(n.LineComment) // a scalar's, or `[..] # c` after the content
 		}
 		add(n.FootComment)
 	}
@@ -425,6 +453,16 @@ func check(c Case) hx.Verdict {
 		return hx.Unspec("update_errors")
 	}
 	switch c.Kind {
+	case "union_updates":
+		parts := strings.SplitN(c.Update, ", ", 2)
+		seqd := hx.Run(parts[0]+" | "+parts[1], c.Text, hx.Opts{Unwrap: &unwrap})
+		if seqd.Err != "" || seqd.Crashed() {
+			return hx.Unspec("update_errors")
+		}
+		if upd.Out != seqd.Out {
+			return hx.Bad("", "two in-place updates joined by `,` print something else than the same two joined by `|`:\nupdate: %s\n--- u1 | u2\n%s\n--- u1, u2\n%s", c.Update, seqd.Out, upd.Out)
+		}
+		return hx.OK(true, c.Text+"\x00"+c.Update, "kind:"+c.Kind)
 	case "delete_nothing":
 		if upd.Out != base.Out {
 			return hx.Bad("", "an update that selects nothing changed the output:\nupdate: %s\n--- yq .\n%s\n--- yq u\n%s", c.Update, base.Out, upd.Out)
@@ -496,11 +534,14 @@ func check(c Case) hx.Verdict {
 		if c.Kind == "multi" && p == tp {
 			out = true
 		}
-		if out && len(c.Path) > 0 || len(c.Path) == 0 && p != "" {
+		counts := out && len(c.Path) > 0 || len(c.Path) == 0 && p != ""
+		// the line comment of a collection written on one line comes after its content
+		lineLast := n.K == gen.YMap || n.K == gen.YSeq
+		if counts {
 			if n.Head != "" {
 				keep = append(keep, n.Head)
 			}
-			if n.Line != "" {
+			if n.Line != "" && !lineLast {
 				keep = append(keep, n.Line)
 			}
 		}
@@ -513,6 +554,9 @@ func check(c Case) hx.Verdict {
 			for i, e := range n.Elem {
 				walkC(e, fmt.Sprintf("%s/\x00#%d", p, i))
 			}
+		}
+		if counts && n.Line != "" && lineLast {
+			keep = append(keep, n.Line)
 		}
 	}
 	walkC(c.Doc.Root, "")
@@ -561,7 +605,7 @@ func check(c Case) hx.Verdict {
 					sig = "deviant:trailing-comment-owned-by-last-node"
 				}
 			}
-			return hx.Bad(sig, "comment %q of a node outside the target is gone (or out of order): u=%s\ninput:\n%s\n`yq .`:\n%s\n`yq u`:\n%s", want, c.Update, c.Text, base.Out, upd.Out)
+			return hx.Bad(sig, "comment %q of a node outside the target is gone (or out of order; expected order %q, found %q): u=%s\ninput:\n%s\n`yq .`:\n%s\n`yq u`:\n%s", want, keep, got, c.Update, c.Text, base.Out, upd.Out)
 		}
 	}
 	// map a path of the base table to where it should be in the updated table
